@@ -46,6 +46,7 @@ type vfArtefact struct {
 	Verifier string
 	Nonce   string
 	Forged  string // "" = authentic; otherwise how it was forged
+	NotBefore time.Time
 }
 
 type vfUserFacts struct {
@@ -207,6 +208,8 @@ type vfIntent struct {
 	LoginPw   string
 	Role      *vfRoleReq
 	Inject    *vfInject
+	Token     *vfTokenReq
+	Present   *vfPresent
 }
 
 type vfCertReq struct {
